@@ -125,6 +125,7 @@ func cmdCheck(args []string) int {
 	only := fs.String("entry", "", "run only this entry")
 	noReplay := fs.Bool("noreplay", false, "skip native replay (development)")
 	workers := fs.Int("workers", 0, "workers")
+	budget := fs.Duration("budget", 0, "per-entry time budget (development; exceeding it is inconclusive)")
 	fs.Parse(args)
 	if fs.NArg() < 1 {
 		fmt.Fprintln(os.Stderr, "usage: gosmt check Cxx [--tier quick|thorough]")
@@ -197,6 +198,10 @@ func cmdCheck(args []string) int {
 			}
 			cfg.Preempt = e.Preempt
 			cfg.MaxPaths = e.MaxPaths
+			cfg.TimeBudget = *budget
+			if e.TimeoutS > 0 && cfg.TimeBudget == 0 {
+				cfg.TimeBudget = time.Duration(e.TimeoutS) * time.Second
+			}
 			if tier == 1 {
 				cfg.TimeoutMs = 120000
 			}
